@@ -10,10 +10,13 @@ package main
 //	p12pweq <pwd> <nul|rep|utf8>        C17: a PKCS#12 bundle is opened by another password: pwd+"\x00" … (the BMP
 //	                                     terminator and the repetition of the KDF make pwd and pwd+"\x00"+pwd the
 //	                                     same key material; invalid UTF-8 bytes all collapse to U+FFFD)
-//	bigticket <certsize>                C16: TLS mode, client certificate of about <certsize> bytes: connection 1
-//	                                     completes and the server issues a ticket that is too large to be offered
-//	                                     (ClientHello above the 64 KiB handshake-message limit): connection 2 with the
-//	                                     same cache and configuration is refused instead of resumed or renegotiated in full
+//	bigticket <certsize>                C16 (repaired, no longer a finding): TLS mode, client certificate of
+//	                                     <certsize> bytes: connection 1 completed and the server issued a ticket too
+//	                                     large to be offered (ClientHello above the 64 KiB handshake-message limit), so
+//	                                     connection 2 with the same cache and configuration was refused instead of
+//	                                     resumed or renegotiated in full; for still larger certificates connection 1
+//	                                     itself failed on the client (NewSessionTicket above the limit). Now "ok" is
+//	                                     expected for every size up to 65530 (exact lengths: op ticketcap, c16cap.go)
 
 import (
 	"crypto/ecdsa"
@@ -151,7 +154,7 @@ func evalBigticket(args []string) string {
 		return "bad-op"
 	}
 	size, err := strconv.Atoi(args[0])
-	if err != nil || size < 300 || size > 70000 {
+	if err != nil || size < 600 || size > 70000 {
 		return "bad-op"
 	}
 	_, _, std := pkis()
@@ -171,8 +174,10 @@ func evalBigticket(args []string) string {
 	if err != nil {
 		return "ORACLE-FAIL:harness-cert"
 	}
-	if adj := size - len(der); adj != 0 && size-400+adj > 0 {
-		if der, err = mk(size - 400 + adj); err != nil {
+	ext := size - 400
+	for try := 0; try < 100 && len(der) != size && ext+size-len(der) > 0; try++ { // ECDSA signatures vary by a byte or two
+		ext += size - len(der)
+		if der, err = mk(ext); err != nil {
 			return "ORACLE-FAIL:harness-cert"
 		}
 	}
@@ -191,16 +196,21 @@ func evalBigticket(args []string) string {
 	}
 	r1 := runPair(ccfg, scfg, pairOpts{app: readOne})
 	if !r1.c.done || !r1.s.done {
+		if len(der) <= 65530 && r1.s.done != r1.c.done { // the Certificate message fits: the handshake has to work
+			return "ORACLE-FAIL:issuing-handshake-fails-on-one-side"
+		}
 		return "first-connection-failed" // (certificates above the message limit: outside what the statement covers)
 	}
-	r2 := runPair(ccfg, scfg, pairOpts{app: readOne})
-	if r2.c.panicked != "" || r2.s.panicked != "" {
-		return "ORACLE-FAIL:panic"
+	for i := 2; i <= 3; i++ {
+		r2 := runPair(ccfg, scfg, pairOpts{app: readOne})
+		if r2.c.panicked != "" || r2.s.panicked != "" {
+			return "ORACLE-FAIL:panic"
+		}
+		if !r2.c.done || !r2.s.done { // neither resumed nor a full handshake
+			return "ORACLE-FAIL:issued-ticket-refused-instead-of-resumed-or-full-handshake"
+		}
 	}
-	if r2.c.done && r2.s.done {
-		return "ok" // resumed, or a full handshake
-	}
-	return "ORACLE-FAIL:issued-ticket-refused-instead-of-resumed-or-full-handshake"
+	return "ok"
 }
 
 // genKnownFindings: the inputs of the recorded findings, emitted by the generators of C14, C17 and C16
@@ -216,7 +226,9 @@ func genKnownFindings(prop string, r *rng, emit func(string)) {
 		emit("p12pweq - nul")
 		emit("p12pweq " + hx([]byte("pw\xff")) + " utf8")
 	case "C16":
-		emit("bigticket 65350")
 		emit("bigticket 2000") // control: an ordinary certificate resumes
+		for _, n := range []int{16000, 16300, 30000, 65000, 65290, 65350, 65400, 65410, 65470, 65530} {
+			emit("bigticket " + strconv.Itoa(n))
+		}
 	}
 }
